@@ -39,7 +39,13 @@ class NodeFacts:
                 for k in n.keywords:
                     if k.arg == "inputs":
                         self.inputs_expr = k.value
-        self.input_names = {x.id for x in ast.walk(self.inputs_expr) if isinstance(x, ast.Name)} if self.inputs_expr is not None else set()
+        # `inputs = [...]` bound to a local first: use its definition(s)
+        exprs = [self.inputs_expr] if self.inputs_expr is not None else []
+        if isinstance(self.inputs_expr, ast.Name):
+            exprs = [n.value for n in walk_no_nested(init.node) if isinstance(n, ast.Assign) and any(isinstance(t, ast.Name) and t.id == self.inputs_expr.id for t in n.targets)] or exprs
+            exprs += [n.value for n in walk_no_nested(init.node) if isinstance(n, ast.AugAssign) and isinstance(n.target, ast.Name) and n.target.id == self.inputs_expr.id]
+            exprs += [a for n in walk_no_nested(init.node) if isinstance(n, ast.Call) and isinstance(n.func, ast.Attribute) and n.func.attr in ("append", "extend") and norm(n.func.value) == self.inputs_expr.id for a in n.args]
+        self.input_names = {x.id for e in exprs for x in ast.walk(e) if isinstance(x, ast.Name)}
         # _tracer_transform
         self.transform = c.methods.get("_tracer_transform")
         self.eq = c.methods.get("__eq__")
